@@ -239,24 +239,92 @@ var vpPdfTextAct = [120]int{
 	0, 0, 0, 0, 0, 0, 0, 0, 0, 0, 0, 0, 0, 0, 0, 0, 0, 0, 0, 0, 0, 0, 0, 0, 0, 0, 0, 0, 0, 1,
 }
 
-// vpPdfDec is the decoder state. All steps are written "obliviously": every
-// helper takes a guard and performs its (scalar) updates under that guard, all
-// loops have constant trip counts.
+// The text compaction state of a reader is ts = sub + 4*shift with sub the
+// latched sub-mode (0 Alpha, 1 Lower, 2 Mixed, 3 Punct) and shift 0 (none),
+// 1 (as pending) or 2 (ps pending). vpPdfTextTables expands the two tables
+// above into a transition table indexed [ts*32 + v] (v = 0..29; 30 and 31 are
+// unused filler so that any v in 0..31 stays in range): the character produced
+// (0 = none) and the next state. All of this is concrete computation.
+//
+// A shift applies to exactly one value, after which the latched sub-mode is
+// back in force. Where the standard is silent, ZXing is followed: a latch or
+// shift value met under a shift is ignored, except that ps followed by 29 (al
+// in the Punct table) latches to Alpha.
+func vpPdfTextTables() (ch []int, next []int) {
+	ch = make([]int, 12*32)
+	next = make([]int, 12*32)
+	for ts := 0; ts < 12; ts++ {
+		sub := ts % 4
+		shift := ts / 4
+		t := sub
+		if shift == 1 {
+			t = 0
+		}
+		if shift == 2 {
+			t = 3
+		}
+		for v := 0; v < 32; v++ {
+			if v >= 30 {
+				next[ts*32+v] = ts
+				continue
+			}
+			act := vpPdfTextAct[t*30+v]
+			nsub := sub
+			nshift := 0
+			if shift != 0 {
+				if act == 1 && t == 3 {
+					nsub = 0
+				}
+			} else {
+				if act >= 1 && act <= 4 {
+					nsub = act - 1
+				}
+				if act == 5 {
+					nshift = 1
+				}
+				if act == 6 {
+					nshift = 2
+				}
+			}
+			ch[ts*32+v] = int(vpPdfTextChar[t*30+v])
+			next[ts*32+v] = nsub + 4*nshift
+		}
+	}
+	return ch, next
+}
+
+const vpPdfLimb = 1000000000000000 // 10^15: numeric groups are kept as 3 limbs (45 digits)
+
+// vpPdfDec is the decoder state. The decoder is a state machine that consumes
+// one codeword per step; every helper takes a guard and performs its scalar
+// updates under that guard, and all loops have constant trip counts, so the
+// control structure does not depend on the codeword values.
 type vpPdfDec struct {
-	out []byte
+	out []byte // fixed size; n bytes are valid
 	n   int
 	ok  bool
 
-	mode  int  // 0 text, 1 byte (901), 2 byte (924), 3 numeric
-	sub   int  // latched text sub-mode 0..3
-	shift int  // 0 none, 1 as pending, 2 ps pending
-	pend  bool // 913 seen: the next codeword is one byte
+	mode int  // 0 text, 1 byte (901), 2 byte (924), 3 numeric
+	ts   int  // text state, see vpPdfTextTables
+	pend bool // 913 seen: the next codeword is one byte
 
 	bbuf [5]int // byte compaction: codewords of the open group
 	bcnt int
 
-	dig  [45]int // numeric compaction: decimal digits (low first) of the open group
+	num  [3]int // numeric compaction: value of the open group, base 10^15, low limb first
 	ncnt int
+
+	tch []int
+	tnx []int
+}
+
+func vpPdfNewDec(n int, sub int) *vpPdfDec {
+	d := new(vpPdfDec)
+	d.out = make([]byte, 3*n+8)
+	d.ok = true
+	d.ts = sub
+	d.tch, d.tnx = vpPdfTextTables()
+	return d
 }
 
 func (d *vpPdfDec) emit(g bool, b int) {
@@ -266,43 +334,12 @@ func (d *vpPdfDec) emit(g bool, b int) {
 	}
 }
 
-// textHalf processes one text compaction value v (0..29).
+// textHalf processes one text compaction value v (0..31).
 func (d *vpPdfDec) textHalf(g bool, v int) {
-	t := d.sub
-	if d.shift == 1 {
-		t = 0
-	}
-	if d.shift == 2 {
-		t = 3
-	}
-	idx := t*30 + v
-	if !g {
-		idx = 0
-	}
-	ch := int(vpPdfTextChar[idx])
-	act := vpPdfTextAct[idx]
-	shifted := d.shift != 0
+	idx := d.ts*32 + v
+	ch := d.tch[idx]
 	if g {
-		if shifted {
-			// a shift applies to exactly one value; the sub-mode in force
-			// before the shift is restored. A latch/shift value under a
-			// shift is ignored, except that `ps` followed by 29 (al in the
-			// Punct table) latches to Alpha (ZXing).
-			d.shift = 0
-			if act == 1 && t == 3 {
-				d.sub = 0
-			}
-		} else {
-			if act >= 1 && act <= 4 {
-				d.sub = act - 1
-			}
-			if act == 5 {
-				d.shift = 1
-			}
-			if act == 6 {
-				d.shift = 2
-			}
-		}
+		d.ts = d.tnx[idx]
 	}
 	d.emit(g && ch != 0, ch)
 }
@@ -313,105 +350,124 @@ func (d *vpPdfDec) byteGroup(g bool) {
 	for j := 0; j < 5; j++ {
 		v = v*900 + d.bbuf[j]
 	}
-	d.ok = d.ok && (!g || v>>48 == 0)
+	if g && v >= 1<<48 {
+		d.ok = false
+	}
+	div := 1 << 40
 	for j := 0; j < 6; j++ {
-		d.emit(g, (v>>uint(8*(5-j)))&0xFF)
-	}
-	if g {
-		d.bcnt = 0
+		d.emit(g, (v/div)%256)
+		div = div / 256
 	}
 }
 
-// byteCw processes one data codeword in byte compaction mode.
-// 924: every 5 codewords are 6 bytes. 901: 5 codewords are 6 bytes only when
-// at least one more data codeword follows in the segment (the byte count is
-// not a multiple of 6, so the segment ends with 1..5 single-byte codewords).
-func (d *vpPdfDec) byteCw(g bool, c int) {
-	d.byteGroup(g && d.mode == 1 && d.bcnt == 5)
-	for j := 0; j < 5; j++ {
-		if g && j == d.bcnt {
-			d.bbuf[j] = c
-		}
-	}
-	if g {
-		d.bcnt++
-	}
-	d.byteGroup(g && d.mode == 2 && d.bcnt == 5)
-}
-
-// byteFlush ends a byte compaction segment: the open group is one byte per codeword.
-func (d *vpPdfDec) byteFlush(g bool) {
+// byteSingles emits the open group as one byte per codeword.
+func (d *vpPdfDec) byteSingles(g bool) {
 	for j := 0; j < 5; j++ {
 		gj := g && j < d.bcnt
-		d.ok = d.ok && (!gj || d.bbuf[j] < 256)
+		if gj && d.bbuf[j] > 255 {
+			d.ok = false
+		}
 		d.emit(gj, d.bbuf[j])
-	}
-	if g {
-		d.bcnt = 0
 	}
 }
 
 // numFlush ends a numeric group: the base 900 value, written in decimal, is
 // a '1' followed by the digits.
 func (d *vpPdfDec) numFlush(g bool) {
-	g = g && d.ncnt > 0
 	started := false
+	lead := 1
 	for j := 44; j >= 0; j-- {
-		dj := d.dig[j]
+		p := 1
+		for q := 0; q < j%15; q++ {
+			p *= 10
+		}
+		dj := (d.num[j/15] / p) % 10
 		d.emit(g && started, '0'+dj)
 		if !started && dj != 0 {
 			started = true
-			d.ok = d.ok && (!g || dj == 1)
+			lead = dj
 		}
 	}
-	d.ok = d.ok && (!g || started)
-	for j := 0; j < 45; j++ {
-		if g {
-			d.dig[j] = 0
-		}
-	}
-	if g {
-		d.ncnt = 0
+	if g && (!started || lead != 1) {
+		d.ok = false
 	}
 }
 
-// numCw processes one data codeword in numeric compaction mode.
-func (d *vpPdfDec) numCw(g bool, c int) {
-	carry := c
-	for j := 0; j < 45; j++ {
-		t := d.dig[j]*900 + carry
-		if g {
-			d.dig[j] = t % 10
-		}
-		carry = t / 10
-	}
-	if g {
-		d.ncnt++
-	}
-	d.numFlush(g && d.ncnt == 15)
-}
-
+// step consumes one codeword.
+//
+// Byte compaction: under 924 every 5 codewords are 6 bytes. Under 901 the byte
+// count is not a multiple of 6, so the segment ends with 1..5 single-byte
+// codewords: 5 codewords are a group of 6 bytes only if another data codeword
+// follows in the segment. In both cases fewer than 5 codewords left at the end
+// of the segment are single bytes.
 func (d *vpPdfDec) step(c int) {
-	d.ok = d.ok && c >= 0 && c <= 928
-	isData := c >= 0 && c < 900
+	if c < 0 || c > 928 {
+		d.ok = false
+		c = 0
+	}
+	isData := c < 900
+	pend := d.pend
+	fn := !pend && !isData // function codeword
+	dt := !pend && isData  // data codeword of the mode in force
+	inByte := d.mode == 1 || d.mode == 2
+	inNum := d.mode == 3
+	full := d.bcnt == 5
 
 	// the codeword after 913 is one byte
-	pend := d.pend
-	d.ok = d.ok && (!pend || c < 256)
+	if pend && c > 255 {
+		d.ok = false
+	}
 	d.emit(pend, c)
-	d.pend = false
 
-	// function codewords close the open byte / numeric segment
-	fn := !pend && !isData
-	d.byteFlush(fn && (d.mode == 1 || d.mode == 2))
-	d.numFlush(fn && d.mode == 3)
+	// byte compaction: close a full group / the segment, then take the codeword
+	endBytes := fn && inByte
+	d.byteGroup(full && ((dt && inByte) || (endBytes && d.mode == 2)))
+	d.byteSingles(endBytes && !(full && d.mode == 2))
+	if (dt && inByte && full) || endBytes {
+		d.bcnt = 0
+	}
+	if dt && inByte {
+		d.bbuf[d.bcnt] = c
+		d.bcnt++
+	}
+
+	// numeric compaction: take the codeword, close the group after 15 codewords
+	// or at the end of the segment
+	if dt && inNum {
+		carry := c
+		t := d.num[0]*900 + carry
+		n0 := t % vpPdfLimb
+		carry = t / vpPdfLimb
+		t = d.num[1]*900 + carry
+		n1 := t % vpPdfLimb
+		carry = t / vpPdfLimb
+		t = d.num[2]*900 + carry
+		d.num[0], d.num[1], d.num[2] = n0, n1, t
+		d.ncnt++
+	}
+	endNum := inNum && d.ncnt > 0 && (fn || d.ncnt == 15)
+	d.numFlush(endNum)
+	if endNum {
+		d.num[0], d.num[1], d.num[2] = 0, 0, 0
+		d.ncnt = 0
+	}
+
+	// text compaction
+	tx := dt && d.mode == 0
+	d.textHalf(tx, c/30)
+	d.textHalf(tx, c%30)
+
+	// function codewords
+	d.pend = false
 	if fn {
 		if c == 913 {
 			// only defined in text compaction; the sub-mode is kept, a
 			// pending ps (used as padding) is dropped.
-			d.ok = d.ok && d.mode == 0
+			if d.mode != 0 {
+				d.ok = false
+			}
 			d.pend = true
-			d.shift = 0
+			d.ts = d.ts % 4
 		} else {
 			m := -1
 			if c == 900 {
@@ -426,68 +482,76 @@ func (d *vpPdfDec) step(c int) {
 			if c == 902 {
 				m = 3
 			}
-			// Macro PDF417, ECI and reserved codewords are not modelled.
-			d.ok = d.ok && m >= 0
-			if m >= 0 {
-				d.mode = m
+			if m < 0 {
+				// Macro PDF417, ECI and reserved codewords are not modelled.
+				d.ok = false
+				m = d.mode
 			}
-			d.sub = 0
-			d.shift = 0
+			d.mode = m
+			d.ts = 0
 		}
 	}
-
-	dt := !pend && isData
-	tx := dt && d.mode == 0
-	d.textHalf(tx, c/30)
-	d.textHalf(tx, c%30)
-	d.byteCw(dt && (d.mode == 1 || d.mode == 2), c)
-	d.numCw(dt && d.mode == 3, c)
 }
 
 func (d *vpPdfDec) finish() {
-	d.byteFlush(d.mode == 1 || d.mode == 2)
-	d.numFlush(d.mode == 3)
-	d.ok = d.ok && !d.pend
+	inByte := d.mode == 1 || d.mode == 2
+	full := d.bcnt == 5 && d.mode == 2
+	d.byteGroup(inByte && full)
+	d.byteSingles(inByte && !full)
+	d.numFlush(d.mode == 3 && d.ncnt > 0)
+	if d.pend {
+		d.ok = false
+	}
 }
 
-func vpPdfNewDec(n int, sub int) *vpPdfDec {
-	d := new(vpPdfDec)
-	d.out = make([]byte, 3*n+8)
-	d.ok = true
-	d.sub = sub
-	return d
-}
-
-// vpPdfDecode decodes the data codewords of a symbol (those after the symbol
+// vpPdfDecodeN decodes the data codewords of a symbol (those after the symbol
 // length descriptor, without error correction; trailing 900 pad codewords may
 // be present and produce nothing). Text compaction (Alpha) is in effect at the
-// start. ok is false for codewords outside 0..928, Macro/ECI/reserved function
+// start. The result is a buffer of fixed length 3*len(cw)+8 of which the first
+// n bytes are the message (use this form when cw is symbolic: n is then a
+// symbolic value and no slice with a symbolic bound is formed).
+// ok is false for codewords outside 0..928, Macro/ECI/reserved function
 // codewords, 913 outside text compaction or without a following byte value, a
 // single-byte codeword above 255, a 5-codeword group above 2^48-1, or a
 // numeric group whose decimal value does not begin with 1.
-func vpPdfDecode(cw []int) ([]byte, bool) {
+func vpPdfDecodeN(cw []int) (buf []byte, n int, ok bool) {
 	d := vpPdfNewDec(len(cw), 0)
 	for i := 0; i < len(cw); i++ {
 		d.step(cw[i])
 	}
 	d.finish()
-	return d.out[:d.n], d.ok
+	return d.out, d.n, d.ok
 }
 
-// vpPdfDecodeText decodes a run of text compaction codewords (each 0..899)
-// starting in sub-mode sub (0 Alpha, 1 Lower, 2 Mixed, 3 Punct) and returns
-// the characters and the latched sub-mode a reader is in afterwards (a pending
-// trailing ps/as is padding and does not change it).
-func vpPdfDecodeText(cw []int, sub int) ([]byte, int, bool) {
+// vpPdfDecode is vpPdfDecodeN with the buffer cut to the message.
+func vpPdfDecode(cw []int) ([]byte, bool) {
+	buf, n, ok := vpPdfDecodeN(cw)
+	return buf[:n], ok
+}
+
+// vpPdfDecodeTextN decodes a run of text compaction codewords (each 0..899)
+// starting in sub-mode sub (0 Alpha, 1 Lower, 2 Mixed, 3 Punct). It returns the
+// characters (first n bytes of buf, len(buf) = 3*len(cw)+8) and the latched
+// sub-mode a reader is in afterwards (a pending trailing ps/as is padding and
+// does not change it).
+func vpPdfDecodeTextN(cw []int, sub int) (buf []byte, n int, endSub int, ok bool) {
 	d := vpPdfNewDec(len(cw), sub)
 	for i := 0; i < len(cw); i++ {
 		c := cw[i]
-		in := c >= 0 && c < 900
-		d.ok = d.ok && in
-		d.textHalf(in, c/30)
-		d.textHalf(in, c%30)
+		if c < 0 || c > 899 {
+			d.ok = false
+			c = 0
+		}
+		d.textHalf(true, c/30)
+		d.textHalf(true, c%30)
 	}
-	return d.out[:d.n], d.sub, d.ok
+	return d.out, d.n, d.ts % 4, d.ok
+}
+
+// vpPdfDecodeText is vpPdfDecodeTextN with the buffer cut to the text.
+func vpPdfDecodeText(cw []int, sub int) ([]byte, int, bool) {
+	buf, n, endSub, ok := vpPdfDecodeTextN(cw, sub)
+	return buf[:n], endSub, ok
 }
 
 // ---------------------------------------------------------------------------
